@@ -1,9 +1,9 @@
 /-
-  Helper lemmas for the C08 location pins (`Draft/C08/LocationPins*.lean`):
+  Helper lemmas for the C08 location pins (`Props/C08/LocationPins*.lean`):
   the representation of infinite support ends, and `as u64` / `as i64` of a floor over ℝ.
 -/
 import Statrs.Real.Simp
-import Statrs.Draft.Spec.Location
+import Statrs.Spec.Location
 import Mathlib.Tactic
 namespace Statrs.Lemmas.LocationPins
 open Statrs Statrs.Spec
